@@ -24,6 +24,7 @@ ORACLES = {
     "C08": ["oracle_c08", "c08_"],
     "C09": ["oracle_c09"],
     "C11": ["oracle_c11", "c11_"],
+    "C13": ["c13_"],
     "C16": ["oracle_c16", "c16_"],
     "C18": ["oracle_c18"],
 }
